@@ -140,6 +140,13 @@ pub fn run(opts: &Opts) -> i32 {
     }
     let labels = if let Some(r) = &opts.replay {
         let rj = crate::read_json(&r.to_string_lossy()).unwrap_or(Value::Null);
+        // a failure found in another build variant is replayed in that variant
+        match rj["variant"].as_str() {
+            Some("-rel") => build::set_variant("-rel"),
+            Some("-nommap") => build::set_variant("-nommap"),
+            Some("-asan") => build::set_variant("-asan"),
+            _ => {}
+        }
         vec![rj["universe"].as_str().filter(|u| *u != "-").unwrap_or("fixed").to_string()]
     } else {
         universes_for(opts)
@@ -209,6 +216,7 @@ pub fn run(opts: &Opts) -> i32 {
                             if let Some(fs) = r["failures"].as_array_mut() {
                                 for f in fs.iter_mut() {
                                     f["universe"] = json!(label);
+                                    f["variant"] = json!("-nommap");
                                     f["message"] = json!(format!("[epserde built without the mmap feature] {}", f["message"].as_str().unwrap_or("")));
                                 }
                             }
@@ -220,6 +228,35 @@ pub fn run(opts: &Opts) -> i32 {
                 }
             }
             Err(e) => infra_err = Some(format!("no-mmap configuration: {}", e)),
+        }
+        build::set_variant("");
+    }
+    // ---- the same oracles with everything built as a release build would be (no debug assertions, no overflow
+    // checks): behaviour that only debug assertions keep in check shows up here
+    const REL_PROPS: [&str; 4] = ["C02", "C11", "C12", "C15"];
+    if opts.replay.is_none() && REL_PROPS.contains(&opts.prop.as_str()) {
+        build::set_variant("-rel");
+        let labels = if opts.tier == "thorough" { vec!["fixed".to_string(), "extra".to_string(), format!("s{}", opts.seed)] } else { vec!["fixed".to_string()] };
+        match build::prepare(opts, &labels) {
+            Ok(us) => {
+                for (label, u) in &us {
+                    match build::run_bin(label, &opts.prop, opts, &[]) {
+                        Ok(mut r) => {
+                            if let Some(fs) = r["failures"].as_array_mut() {
+                                for f in fs.iter_mut() {
+                                    f["universe"] = json!(label);
+                                    f["variant"] = json!("-rel");
+                                    f["message"] = json!(format!("[built without debug assertions and overflow checks] {}", f["message"].as_str().unwrap_or("")));
+                                }
+                            }
+                            agg.add_report(&r);
+                            agg.universes.push(json!({"label": format!("{} (release-like build)", label), "definitions": u.adts.len(), "subjects": u.subjects.len(), "wall_s": r["wall_s"]}));
+                        }
+                        Err(e) => infra_err = Some(e),
+                    }
+                }
+            }
+            Err(e) => infra_err = Some(format!("release-like build: {}", e)),
         }
         build::set_variant("");
     }
@@ -236,6 +273,7 @@ pub fn run(opts: &Opts) -> i32 {
                             if let Some(fs) = r["failures"].as_array_mut() {
                                 for f in fs.iter_mut() {
                                     f["universe"] = json!(label);
+                                    f["variant"] = json!("-asan");
                                     f["message"] = json!(format!("[AddressSanitizer build] {}", f["message"].as_str().unwrap_or("")));
                                 }
                             }
